@@ -108,6 +108,9 @@ def main():
             if f.name not in names:
                 names.append(f.name)
         print("broken ties (%d): %s" % (len(names), "; ".join(names[:8])))
+        for f in failures:
+            if "Traceback" in f.detail:
+                print("  %s: %s" % (f.name, " | ".join(f.detail.strip().split("\n")[-3:])))
         viol = None
         try:
             viol = chk.search(failures, stats)
